@@ -207,6 +207,15 @@ def run_case(case, ctx):
             d[rng.choice(ids)] = rng.choice([-3, -2, -1, 1, 1, 2, 3])
         if rng.random() < 0.15:
             d["not-a-column"] = 2
+        form = rng.random()
+        if form < 0.1 and d:
+            # priorities on a coarse scale (e.g. the time of the click in milliseconds: the most recent choice wins): only their order matters
+            d = {k_: (1 if v_ > 0 else -1) * (1_700_000_000_000 + abs(v_) * 60_000) for k_, v_ in d.items()}
+            ctx.count("count:huge-user-prios")
+        elif form < 0.25 and d:
+            # priorities that were computed (ranks from numpy): numpy integers are integers
+            d = {k_: rng.choice([numpy.int64, numpy.int8, numpy.int32])(v_) for k_, v_ in d.items()}
+            ctx.count("count:numpy-integer-user-prios")
         prios_list.append(d)
     rec = {}
     spy = confgen.exact_solver_factory(rec)
